@@ -295,7 +295,10 @@ func (s *chainState) serve(variant int) (ans string, oracle []string) {
 	return s.cxServe(variant, -1)
 }
 
-// cxServe: failFrom < 0 = a healthy connection, else the connection breaks at that write.
+const cxViaHandleContext = -2
+
+// cxServe: failFrom < 0 = a healthy connection (cxViaHandleContext: entered through Router.HandleContext), else the
+// connection breaks at that write.
 func (s *chainState) cxServe(variant int, failFrom int) (ans string, oracle []string) {
 	if !s.hasMain {
 		return "no-main", nil
@@ -308,7 +311,13 @@ func (s *chainState) cxServe(variant int, failFrom int) (ans string, oracle []st
 	s.run.cxaUsed = false
 	rec := httptest.NewRecorder()
 	req := httptest.NewRequest("GET", s.path, nil)
-	if failFrom >= 0 {
+	if failFrom == cxViaHandleContext {
+		// the second entry point: a context prepared by the caller, dispatched by Router.HandleContext (which also
+		// puts it into the router's pool, so that the next ServeHTTP of this router gets it)
+		c := &rux.Context{}
+		c.Init(rec, req)
+		s.router.HandleContext(c)
+	} else if failFrom >= 0 {
 		s.router.ServeHTTP(&cxBrokenConn{rec: rec, k: failFrom}, req)
 	} else {
 		s.router.ServeHTTP(rec, req)
@@ -591,6 +600,14 @@ func (chainEngine) Run(ops []string) (ans []string, oracle []string) {
 				res, orc := st.serve(v)
 				oracle = append(oracle, orc...)
 				return res
+			case f[0] == "serveh" && len(f) == 2:
+				v, err := strconv.Atoi(f[1])
+				if err != nil || v < 0 {
+					return "bad-op"
+				}
+				res, orc := st.cxServe(v, cxViaHandleContext)
+				oracle = append(oracle, orc...)
+				return res
 			case f[0] == "servef" && len(f) == 3:
 				v, err := strconv.Atoi(f[1])
 				k, err2 := strconv.Atoi(f[2])
@@ -712,6 +729,10 @@ func (chainEngine) Corpus() []Case {
 		// re-dispatch after the handler wrote / after its Next(); the second `d` of a request does nothing
 		chainCaseOf([]string{"n,d,i1"}, nil, []string{"w1,d,n"}, "i0,a", "0"),
 		chainCaseOf(nil, nil, nil, "c201,d,i0,c404", "0", "0"),
+		// the second entry point Router.HandleContext, followed by ServeHTTP requests on the same router: the whole
+		// chain runs every time (global, group, route middleware, main handler), also after an aborted request
+		{Ops: []string{"new", "g e1,n,e2", "p e3,n", "r e4,n,i1", "m e5", "serveh 0", "serve 0", "serveh 0", "serveh 0", "serve 0"}},
+		{Ops: []string{"new", "g i0,n", "r a", "m e1", "serveh 4", "serve 4", "serve 4"}},
 	}
 	for i := range cs {
 		cs[i].Tag = "corpus"
@@ -971,6 +992,31 @@ func cxaStream(r *Rand, ops []string) (tag string) {
 	return
 }
 
+// cxHandleContextStream (one case in five): one of the requests enters through Router.HandleContext (`serveh`); one
+// or two more requests on the same router follow, which get the context that HandleContext put into the pool.
+func cxHandleContextStream(r *Rand, ops []string) []string {
+	var serves []int
+	for i, op := range ops {
+		if strings.HasPrefix(op, "serve ") {
+			serves = append(serves, i)
+		}
+	}
+	if len(serves) == 0 {
+		return ops
+	}
+	i := serves[r.Intn(len(serves))]
+	v := strings.TrimPrefix(ops[i], "serve ")
+	ops[i] = "serveh " + v
+	for k, n := 0, r.Range(1, 2); k < n; k++ {
+		if r.Chance(1, 3) {
+			ops = append(ops, "serveh "+v)
+		} else {
+			ops = append(ops, "serve "+v)
+		}
+	}
+	return ops
+}
+
 func (chainEngine) Gen(r *Rand, tier string) Case {
 	if r.Chance(1, 8) {
 		return genLimCase(r)
@@ -1069,5 +1115,13 @@ func (chainEngine) Gen(r *Rand, tier string) Case {
 		plan += "-brokenconn"
 	}
 	plan += cxaStream(r, ops)
+	if r.Chance(1, 5) && !strings.Contains(plan, "-redispatch") { // drawn last; a caller-prepared context has no router for the `d` action
+		if n := len(ops); true {
+			ops = cxHandleContextStream(r, ops)
+			if len(ops) > n {
+				plan += "-hc"
+			}
+		}
+	}
 	return Case{Ops: ops, Tag: tag + "-" + plan}
 }
